@@ -193,7 +193,7 @@ def text_case(ctx, desc, inst, space, rows, n_bins):
             ctx.count("text_wrong_length_rejected")
 
 
-def corruptions(rng, desc, rows, n_bins):
+def corruptions(rng, desc, rows, n_bins, dtype=None):
     """Yield (tag, rows, n_bins) corruptions of a feasible packing."""
     n = len(rows)
     k = n_bins
@@ -203,6 +203,19 @@ def corruptions(rng, desc, rows, n_bins):
         return [list(r) for r in rows]
 
     j = int(rng.integers(n))
+    # 0. what arithmetic in the packing's own narrow type makes of
+    # "left + width" far to the right: the end coordinate wraps around, the
+    # rectangle is inverted, its extent (taken in that type) is still right
+    if dtype is not None and np.dtype(dtype).itemsize <= 2:
+        info = np.iinfo(dtype)
+        span = int(info.max) - int(info.min) + 1
+        wj, hj = rows[j][4] - rows[j][2], rows[j][5] - rows[j][3]
+        for ax, ext in ((0, wj), (1, hj)):
+            rr = cp()
+            start = int(info.max) - int(rng.integers(0, ext))
+            rr[j][2 + ax] = start
+            rr[j][4 + ax] = start + ext - span
+            yield "wrapped-extent", rr, k
     # 1. one coordinate +-1
     rr = cp()
     rr[j][int(rng.integers(2, 6))] += int(rng.choice([-1, 1]))
@@ -369,7 +382,7 @@ def one_instance(ctx, desc):
     pick = [really[int(i)] for i in
             rng.choice(len(really), min(3, len(really)), replace=False)]
     for tag, rows, nb in pick:
-        for ct, cr, cn in corruptions(rng, desc, rows, nb):
+        for ct, cr, cn in corruptions(rng, desc, rows, nb, inst.dtype):
             judge(ctx, desc, inst, space, cr, cn, ct)
     # structural: wrong dtype, shape, type
     tag, rows, nb = pick[0]
@@ -405,7 +418,7 @@ def one_instance(ctx, desc):
 def run_shard(ctx, args):
     rng = ctx.rng
     classes = ["tiny", "itembin", "forcedrot", "dtype", "general", "general",
-               "unit", "huge", "shipped"]
+               "unit", "huge", "shipped", "count"]
     names = None
     for it in range(args["n"]):
         cls = classes[it % len(classes)]
